@@ -1,12 +1,12 @@
 # run specification for C09 (loaded by checks_config.py)
 CHECK = {
  'level': 'exploration',
- 'rule': '42 targets (decoders NewBlock/NewBlockHeader/NewTransaction/NewBlockAsset/NewEvent, Block/Transaction.Validate on both decoding paths, '
+ 'rule': '43 targets (decoders NewBlock/NewBlockHeader/NewTransaction/NewBlockAsset/NewEvent, Block/Transaction.Validate on both decoding paths, '
          'EventPostSingleCommits.DecodeStrict, p2p Request/response/Message envelopes, gossip wrapper around the three topic validators, '
          'Executer.blockValidator/singleCommitValidator/verifyAggregateCommit on a 24-block 10-validator node, txpool validator and RPC handler, the '
          'three sync RPC handlers on a started connection, the requester-side decoders of the three sync RPCs (pure and end to end against a scripted '
          'peer), smt.Verify, rmt.VerifyProof/CalculateRootFromUpdateData/VerifyRightWitness, proofs arriving as bytes, BLSVerify/PopVerify/'
-         'VerifyAggSig/VerifyWeightedAggSig, crypto.VerifySignature, BlockHeader.VerifySignature, Lisk32 text) called behind recover + watchdog + '
+         'VerifyAggSig/VerifyWeightedAggSig, crypto.VerifySignature, BlockHeader.VerifySignature, Lisk32 text, Executer.process with signed blocks - see (6)) called behind recover + watchdog + '
          'allocation accounting with: (1) the complete single-mutation neighbourhood of valid messages built with the engine\'s own Encode (every prefix, '
          'every prefix inside every nested message with enclosing lengths corrected, every length prefix -> 0/len+-1/rest/rest+1/2^31/2^32/2^63/2^64-1/'
          'overlong/unterminated, every key -> every wire type and neighbouring/boundary field numbers, varint values -> boundaries and hostile '
@@ -38,7 +38,26 @@ CHECK = {
          'announced tip, gaps, jump to the end, end height with another ID, start >= end) and rapid-drawn scripts (answers as offsets -2..+6 relative to '
          'the requested block, honest prefixes, loops). Oracle = positive evidence of non-termination, never wait-then-pass: 20 consecutive requests for '
          'the same ID, or more than span+25 requests for a range of span heights, or 45 s without request or end (stack attached); any ending (blocks or '
-         'error) passes. Non-trivial = derived from a valid message/argument set by <= 3 mutations, or passing the target\'s first '
+         'error) passes. (6) SEMANTICALLY HOSTILE, WELL-FORMED, CORRECTLY SIGNED BLOCKS OF A LEGITIMATE VALIDATOR (target Executer.process.signed): a '
+         'fresh real node per case (1-10 active validators, 0-3 standby generators, equal or changed validator set with unequal weights, 0-40 honest '
+         'blocks with transactions, assets, events and aggregate commits; history snapshot reopened per case), the valid successor of the tip built as '
+         'the scheduled generator would, every header field the signer controls set to boundary and extreme values and the header RE-SIGNED with the '
+         'generator key in force, sent through the wire encoding to Executer.process (what onBlockReceived runs on the consensus goroutine) and to '
+         'Validate + processValidated (what sync does with a downloaded block): maxHeightGenerated (height-2..height+2, height+1000, previous block of '
+         'the generator +-1, own maxHeightPrevoted, 0, 1, 2^31-1, 2^31, 2^32-2, 2^32-1), maxHeightPrevoted (own value +-1, height-1..height+1, 0, 2^31, '
+         '2^32-1), timestamp (inside the slot: +1, +4999, +9999; neighbouring slots; genesis timestamp +-1; 0, 2^31, 2^32-1), impliesMaxPrevotes, version, '
+         'height, aggregate commit (empty ones at certified+-1 / precommitted / precommitted+1 / height-1..height+1 / 0 / 2^32-1; bits without signature '
+         'and the reverse; 1 B..64 KiB bits, 95/96/97-byte, infinity and 1 MiB signatures; genuine commits signed by all or one validator with height, '
+         'bits and signature moved, emptied, flipped, zeroed, truncated, extended), previousBlockID / transactionRoot / assetRoot / eventRoot / stateRoot / '
+         'validatorsHash of 0, 31, 33, 64 bytes and 1 MiB, flipped, zeroed, generator address of 0/19/21 bytes, payloads of 1-90 transactions, exactly the '
+         'maximum payload size and +-1, 14 KiB parameters, duplicated transactions, assets empty / 1 MiB / empty module name / duplicated / unsorted / 64 of '
+         'them / absent / unparsable, the same values signed by another key or not re-signed, combinations (maxHeightGenerated > height with '
+         'impliesMaxPrevotes, aggregate commit, payload, later slot, wrong roots), sequences of 2-7 blocks (the hostile block, then the honest blocks '
+         'of the others, the same generator again with repeated / honest / smaller values), and siblings of the tip offered in the current slot (fork '
+         'choice tie break: tip deleted, sibling applied, old tip re-applied on failure) carrying the same values; rapid: drawn configuration, 1-5 '
+         'consecutive blocks of 0-3 drawn operations (field = base+-delta | boundary | random). Oracle: the call returns (panic recovered with its site, '
+         'watchdog, 2 s soft bound), the node afterwards processes a fresh valid block on whatever its tip is, no goroutine is left behind once the node '
+         'is closed; acceptance itself is not judged (C03). Non-trivial = derived from a valid message/argument set by <= 3 mutations, or passing the target\'s first '
          'decoding step (wire cases: only if the effect at the victim was observed; downloads: only if the scripted peer was asked); distinct by digest '
          'of (target, arguments)',
  'level_text': 'Every network-facing decoder, validator and verifier is called in-process with exhaustively enumerated and randomly stacked structural '
@@ -46,7 +65,10 @@ CHECK = {
                'dump), a reproducible overrun of the generous time/allocation envelopes, or an Accept for an undecodable gossip payload is a violation. '
                'The stream handlers and gossip validators additionally run in a real node (child process) fed over loopback connections with hostile '
                'but well-formed envelopes (death of the node, a wedged handler or a node that no longer completes an honest exchange is a violation), '
-               'and the sync Downloader runs against scripted peers whose well-formed answers make no progress (the request pattern proves a loop).',
+               'and the sync Downloader runs against scripted peers whose well-formed answers make no progress (the request pattern proves a loop). '
+               'Blocks that are well-formed and correctly signed by the scheduled generator but carry boundary and extreme values in every field the '
+               'signer controls are processed by a real node through Executer.process and the sync path; a panic, a call that does not return, a node '
+               'that no longer processes the next valid block, or goroutines left behind are violations.',
  'level_note': 'Envelopes are fixed and generous, not proved bounds; inputs > 64 KiB only sampled; decoders of the node\'s own storage and the JSON-RPC '
                'endpoint layer are not targeted; process-fatal errors are attributed with VERIF_C09_LOG=<file> (every case logged before it runs).',
  'technique': 'property-based robustness testing: exhaustive structure-aware mutation + exhaustive short inputs + rapid stacked mutations + native fuzz seed corpora',
@@ -60,6 +82,9 @@ CHECK = {
    # envelope level over real connections (victim node in a child process) / sync downloads against hostile well-formed peers
    {'pkg': 'c09', 'run': 'TestWireEnvelopes|TestWireRandom', 'checks': 120, 'timeout': 900},
    {'pkg': 'c09', 'run': 'TestDownloaderHostilePeers|TestDownloaderRandomPeer', 'checks': 60, 'timeout': 900},
+   # semantically hostile, well-formed, correctly signed blocks of a legitimate validator through Executer.process
+   {'pkg': 'c09', 'run': 'TestSignedBlocksEnumerated', 'gomaxprocs': 4, 'timeout': 900},
+   {'pkg': 'c09', 'run': 'TestSignedBlocksRandom', 'checks': 250, 'gomaxprocs': 4, 'timeout': 900},
  ],
  'thorough': [
    {'pkg': 'c09', 'run': 'TestDecodeMutations|TestDecodeShortStrings|TestRegress|^Fuzz', 'shards': 16, 'timeout': 2400},
@@ -68,6 +93,8 @@ CHECK = {
    {'pkg': 'c09', 'run': 'TestRandomMutations|TestRandomBytes|TestStructuredRandom', 'checks': 600000, 'shards': 10, 'timeout': 2400},
    {'pkg': 'c09', 'run': 'TestWireEnvelopes|TestWireRandom', 'checks': 6000, 'shards': 2, 'timeout': 2400},
    {'pkg': 'c09', 'run': 'TestDownloaderHostilePeers|TestDownloaderRandomPeer', 'checks': 1500, 'shards': 2, 'timeout': 2400},
+   {'pkg': 'c09', 'run': 'TestSignedBlocksEnumerated', 'shards': 4, 'timeout': 2400},
+   {'pkg': 'c09', 'run': 'TestSignedBlocksRandom', 'checks': 8000, 'shards': 4, 'timeout': 2400},
    # native coverage-guided campaigns (one at a time, all cores); a crasher becomes a VIOLATION with the input as replay file
    {'pkg': 'c09', 'fuzz': 'FuzzDecoders', 'fuzztime': '75s', 'timeout': 600},
    {'pkg': 'c09', 'fuzz': 'FuzzNewBlock', 'fuzztime': '45s', 'timeout': 600},
@@ -78,5 +105,5 @@ CHECK = {
    {'pkg': 'c09', 'fuzz': 'FuzzGossipEnvelope', 'fuzztime': '30s', 'timeout': 600},
    {'pkg': 'c09', 'fuzz': 'FuzzResponseEnvelope', 'fuzztime': '30s', 'timeout': 600},
  ],
- 'replay': [{'pkg': 'c09', 'run': 'TestReplayCase|TestReplayDownload|TestRandomMutations|TestRandomBytes|TestStructuredRandom|TestWireRandom|TestDownloaderRandomPeer', 'checks': 1, 'timeout': 900}],
+ 'replay': [{'pkg': 'c09', 'run': 'TestReplayCase|TestReplayDownload|TestRandomMutations|TestRandomBytes|TestStructuredRandom|TestWireRandom|TestDownloaderRandomPeer|TestSignedBlocksRandom', 'checks': 1, 'timeout': 900}],
 }
